@@ -7,7 +7,7 @@ From Astisub Require Import Kit.Base Kit.Str Model.Ops Model.Lin Model.Plain Mod
 From Astisub Require Import Proofs.OrderProofs Proofs.ConvOpsProofs Proofs.PlainProofs.
 Import ListNotations.
 
-Theorem plain_ops_pair uA okA encA decA uB okB encB decB :
+Theorem plain_ops_pair {SA SB : Type} uA okA (encA : plain -> res SA) decA uB okB (encB : plain -> res SB) decB :
   plain_faithful uA okA encA decA -> plain_faithful uB okB encB decB ->
   forall ops p, okA p -> okB (ops_plain ops (ptrunc uA p)) ->
   exists src dst, encA p = Ok src /\ convert_plain_ops decA encB ops src = Ok dst /\
@@ -83,7 +83,7 @@ Proof. vm_compute. reflexivity. Qed.
 (* the command-line tool: whatever the sub-command and its (valid) flags, the output file reads back as the sub-command's
    operation applied to the source cues *)
 From Astisub Require Import Model.Cli.
-Theorem cli_pair uA okA encA decA uB okB encB decB :
+Theorem cli_pair {SA SB : Type} uA okA (encA : plain -> res SA) decA uB okB (encB : plain -> res SB) decB :
   plain_faithful uA okA encA decA -> plain_faithful uB okB encB decB ->
   forall a ops p, cli_ops a = Ok ops -> okA p -> okB (ops_plain ops (ptrunc uA p)) ->
   exists src dst, encA p = Ok src /\ cli_run decA encB a src = Ok dst /\
